@@ -328,6 +328,14 @@ def run_property(pid, tier='quick', update_ledger=False, verbose=False):
                         elif _second_opinion(oid, ob):
                             violations -= 1
                             continue
+                        elif 'cvc5-fmf' in (ob.get('backends') or []):
+                            # the only counter-model comes from the bounded (finite-model) string solver, after the complete
+                            # solvers ran out of time, and it does not fail on the real code: not a verdict
+                            violations -= 1
+                            ob['status'] = 'undecided'
+                            ob['detail'] = 'solver unknown (a finite-model candidate does not fail on the real code): ' + ob['detail']
+                            undecided.append(oid)
+                            continue
                         else:
                             suffix = ' no-failing-input-found'
                             if ob['kind'] == 'coverage':
